@@ -233,7 +233,7 @@ package channel
 //@   ensures RI(c.Q)
 
 //@ func (*Channel).Open [C07 C10]
-//@   requires RI(c.Q)
+//@   requires RI(c.Q) && c.Errs != c.Q.depthChan
 //@   ensures #failed-open-closes-the-transport result != nil && implOpened ==> implClosed
 
 // assumed here, verified nowhere yet: the two outer exchange functions used by the network driver
@@ -257,7 +257,8 @@ package channel
 //@ ghost errsAtHead int
 //@ chanmode Channel.Errs count
 //@ func (*Channel).read [C06 C16]
-//@   requires RI(c.Q) && c.Errs != c.Q.depthChan
+//@   maintains RI(c.Q)
+//@   requires c.Errs != c.Q.depthChan
 //@   modifies c.readLoopExited, c.Q.queue, c.Q.depth, chan(c.Q.depthChan), chan(c.Errs), errsAtHead, alloc()
 //@   loop 1 invariant RI(c.Q) && c.Errs != c.Q.depthChan
 //@   loop 1 set errsAtHead = chlen(c.Errs)
